@@ -155,9 +155,11 @@ pub fn build_matrix_w<Ty: EdgeType, Ix: petgraph::graph::IndexType, W: Copy>(a: 
     let mut ix = vec![petgraph::matrix_graph::NodeIndex::new(0); a.n];
     let mut dummies = Vec::new();
     for &i in &order {
-        if r.chance(35) { dummies.push(g.add_node(9999)); }
+        // 0..2 nodes that will be removed again before each real one (two vacant ids in a row matter to the id iterator)
+        while dummies.len() < 2 * a.n + 2 && r.chance(35) { dummies.push(g.add_node(9999)); }
         ix[i] = g.add_node(i as u32);
     }
+    if r.chance(20) { dummies.push(g.add_node(9999)); if r.chance(50) { dummies.push(g.add_node(9999)); } }
     let mut es = a.edges.clone();
     shuffle(r, &mut es);
     for (s, t, w) in es {
